@@ -455,9 +455,18 @@ class Run:
             "wall_s": round(time.time() - self.t0, 2),
             "violations": len(self.violations),
         }
+        ev["repo"] = REPO
+        if os.path.realpath(REPO) != "/repo":
+            # a run against another checkout (TYPELIB_REPO: seeded mutations, scratch worktrees) says nothing
+            # about /repo: its evidence stays with the build output
+            with open(os.path.join(self.build, "evidence.json"), "w") as f:
+                json.dump(ev, f, indent=1, default=str)
+            return
         os.makedirs(os.path.join(VERIF, "evidence"), exist_ok=True)
-        with open(os.path.join(VERIF, "evidence", f"{self.prop}.json"), "w") as f:
-            json.dump(ev, f, indent=1, default=str)
+        os.makedirs(os.path.join(VERIF, "evidence", "tiers"), exist_ok=True)
+        for name in (f"{self.prop}.json", os.path.join("tiers", f"{self.prop}.{self.tier}.json")):
+            with open(os.path.join(VERIF, "evidence", name), "w") as f:
+                json.dump(ev, f, indent=1, default=str)
 
 
 # ----------------------------------------------------------------------------------
